@@ -22,9 +22,12 @@ CONSTANTS
   Kinds = {"heavy", "del"}
   SharedResults = FALSE
   SharedIterObject = FALSE
+  FaultPos = {}
+  FaultSharesStorage = FALSE
 SPECIFICATION CSpec
 INVARIANT ReturnedFresh
 INVARIANT SameNamesDistinct
 PROPERTY FreshIdentity
 PROPERTY NoSpontaneousChange
+PROPERTY FaultsChangeNothing
 CHECK_DEADLOCK FALSE
